@@ -16,13 +16,17 @@ import (
 )
 
 type H struct {
-	vals     map[string]uint64
-	params   map[string]int
-	counts   map[string]int
-	Failed   []string
-	Observed []string
-	Rejected string
-	tmp      string
+	vals   map[string]uint64
+	params map[string]int
+	counts map[string]int
+	Failed []string
+	// KnownFailed: assertions that failed while tagged by Known (reported as
+	// KNOWN-FINDING by the driver when the id is listed, never as a pass)
+	KnownFailed  []string
+	pendingKnown string
+	Observed     []string
+	Rejected     string
+	tmp          string
 }
 
 type Record struct {
@@ -83,7 +87,12 @@ func (h *H) Param(name string, def int) int {
 // finding id for exactly the next Assert: a violation of that assertion on
 // such a path is printed as KNOWN-FINDING (if id is listed as known in
 // known_findings.json) instead of VIOLATION. It returns cond.
-func (h *H) Known(id string, cond bool) bool { return cond }
+func (h *H) Known(id string, cond bool) bool {
+	if cond {
+		h.pendingKnown = id
+	}
+	return cond
+}
 
 // And/Or/Not/Implies/Ite combine conditions without branching (one SMT term
 // under gosx instead of a fork per operand).
@@ -174,8 +183,13 @@ func (h *H) Assume(c bool) {
 
 func (h *H) Assert(c bool, msg string) {
 	if !c {
-		h.Failed = append(h.Failed, msg)
+		if h.pendingKnown != "" {
+			h.KnownFailed = append(h.KnownFailed, h.pendingKnown+": "+msg)
+		} else {
+			h.Failed = append(h.Failed, msg)
+		}
 	}
+	h.pendingKnown = ""
 }
 
 func (h *H) Fail(msg string) { h.Failed = append(h.Failed, msg) }
